@@ -709,3 +709,5 @@ def _run_scripted(world: World, plan):
     nontrivial = bool(beh) or bool(plan.get('prefix_junk'))
     sig = ['scripted', role, sc, sorted(beh.items()), [s[2] for s in mon.path_states], bool(plan.get('prefix'))]
     return common.finish(world, nontrivial, sig)
+
+INFO['rule'] += " Round-5 additions (scripted uploader): other people's files where the download would go (natural name, numbered variants with gaps) and configured naming chains ending in number-duplicates; those files must be unchanged at the end."
